@@ -467,6 +467,13 @@ class Engine:
                 self.assume(SBool(specfn.keccak(e) == seq_const(bh)))
                 self.assume(SBool(specfn.unkeccak(seq_const(bh)) == e))
                 self.keccak_terms.append((e, specfn.keccak(e)))
+                bnh = self.loader.load("trie.constants").ns.get("BLANK_NODE_HASH")
+                if isinstance(bnh, bytes) and len(bnh) == 32:
+                    # BLANK_NODE_HASH = keccak(rlp(b'')) = keccak(b'\x80') (checked against the libraries at setup)
+                    e2 = z3.Unit(z3.IntVal(128))
+                    self.assume(SBool(specfn.keccak(e2) == seq_const(bnh)))
+                    self.assume(SBool(specfn.unkeccak(seq_const(bnh)) == e2))
+                    self.keccak_terms.append((e2, specfn.keccak(e2)))
         self.assume(SBool(z3.Length(h) == 32))
         self.assume(SBool(specfn.unkeccak(h) == t))                # A-HASH: the hash determines its pre-image
         for (t2, h2) in self.keccak_terms:
@@ -1213,9 +1220,12 @@ class Engine:
                     return
                 # symbolic index into a concrete-length list: split over the positions
                 n = len(base.items)
-                j, ok = ops.norm_index(key, n)
+                j, ok = self.norm_list_index(key, n)
                 if not self.decide(ok):
                     self.raise_exc(IndexError, "list assignment index out of range")
+                from pyvc import lib
+                if lib.symbolic_slot_store_hook(self, base, j, val):
+                    return
                 k = self.choose([mk_bool(j == p) for p in range(n)])
                 base.items[k] = val
                 return
@@ -1705,7 +1715,7 @@ class Engine:
                 if not ok:
                     self.raise_exc(IndexError, "list index out of range")
                 return self.slot_read(base, j)
-            j, ok = ops.norm_index(key, n)
+            j, ok = self.norm_list_index(key, n)
             if not self.decide(ok):
                 self.raise_exc(IndexError, "list index out of range")
             from pyvc import lib
@@ -1750,6 +1760,14 @@ class Engine:
             return h
         raise Unsupported("subscript of %r" % (base,))
 
+    def norm_list_index(self, key, n):
+        """(effective index, in-bounds condition) for a list of concrete length n; a symbolic index that the path
+        places at >= 0 is used as it is (no negative-index normalisation term)"""
+        if not isinstance(key, int) and self.implied(mk_bool(as_int_term(key) >= 0)):
+            kt = z3.simplify(as_int_term(key))
+            return kt, mk_bool(kt < n)
+        return ops.norm_index(key, n)
+
     def slot_read(self, lst, j):
         v = lst.items[j]
         if hasattr(v, "with_origin"):
@@ -1770,6 +1788,21 @@ class Engine:
 
     def ev_Call(self, node, fr):
         f = self.ev(node.func, fr)
+        if isinstance(f, Builtin) and f.name == "next" and len(node.args) >= 1 and isinstance(node.args[0], ast.GeneratorExp) \
+                and len(node.args[0].generators) == 1:
+            # next(<genexp>): the generator is evaluated lazily, up to its first element
+            ge = node.args[0]
+            g = ge.generators[0]
+            items = self.concrete_items(self.ev(g.iter, fr))
+            if items is not None:
+                sub = Frame(fr.func, fr.module, {}, fr)
+                for x in items:
+                    self.assign(g.target, x, sub)
+                    if all(self.decide(self.ev(c, sub)) for c in g.ifs):
+                        return self.ev(ge.elt, sub)
+                if len(node.args) > 1:
+                    return self.ev(node.args[1], fr)
+                self.raise_exc(StopIteration)
         args = []
         for a in node.args:
             if isinstance(a, ast.Starred):
